@@ -36,6 +36,25 @@ type Case struct {
 	Events     []Stored `json:"events"`
 	ErrHandler bool     `json:"err_handler"`
 	Option     bool     `json:"option,omitempty"` // register through WithUpcast options instead of RegisterUpcastFunc
+	// Late registration: edges with index >= LateFrom are registered from
+	// inside the replay callback while it handles event LateAt (0-based), so
+	// every later event must already be upcast along them.  LateFrom 0 means
+	// the registry is empty when the replay starts.  Disabled when LateOn is
+	// false.
+	LateOn   bool `json:"late_on,omitempty"`
+	LateAt   int  `json:"late_at,omitempty"`
+	LateFrom int  `json:"late_from,omitempty"`
+}
+
+// early: number of edges registered before the replay starts.
+func (c *Case) early() int {
+	if !c.LateOn || c.Option {
+		return len(c.Edges)
+	}
+	if c.LateFrom > len(c.Edges) {
+		return len(c.Edges)
+	}
+	return c.LateFrom
 }
 
 var errStep = errors.New("upcast step failed")
@@ -98,20 +117,25 @@ func Run(c *Case) *vkit.Outcome {
 	}
 	bus := eventbus.New(opts...)
 	if !c.Option {
-		for i, e := range c.Edges {
+		for i, e := range c.Edges[:c.early()] {
 			if err := eventbus.RegisterUpcastFunc(bus, name(e.From), name(e.To), rawUpcaster(i, e)); err != nil {
 				o.Failf("", "registering acyclic edge %d %+v failed: %v", i, e, err)
 				return o
 			}
 		}
 	}
-	first := map[int]int{} // source -> index of first registered edge
-	for i := len(c.Edges) - 1; i >= 0; i-- {
-		first[c.Edges[i].From] = i
-	}
-	nSrc := map[int]int{}
-	for _, e := range c.Edges {
-		nSrc[e.From]++
+	// the graph as registered so far: all edges, or the early prefix for
+	// events replayed up to and including the one whose callback registers the rest
+	graphOf := func(n int) (map[int]int, map[int]int) {
+		first := map[int]int{} // source -> index of first registered edge
+		for i := n - 1; i >= 0; i-- {
+			first[c.Edges[i].From] = i
+		}
+		nSrc := map[int]int{}
+		for _, e := range c.Edges[:n] {
+			nSrc[e.From]++
+		}
+		return first, nSrc
 	}
 	ctx := context.Background()
 	type want struct {
@@ -133,6 +157,11 @@ func Run(c *Case) *vkit.Outcome {
 		w := want{typ: tn, data: orig, off: off, ts: ts}
 		origs = append(origs, w)
 		// model walk
+		nEdges := len(c.Edges)
+		if c.early() < len(c.Edges) && i <= c.LateAt {
+			nEdges = c.early()
+		}
+		first, nSrc := graphOf(nEdges)
 		cur := ev.Type
 		var trail []int
 		steps := 0
@@ -169,6 +198,7 @@ func Run(c *Case) *vkit.Outcome {
 	}
 	// ReplayWithUpcast
 	idx := 0
+	lateDone := false
 	err := bus.ReplayWithUpcast(ctx, eventbus.OffsetOldest, func(se *eventbus.StoredEvent) error {
 		if idx >= len(wants) {
 			return fmt.Errorf("extra event")
@@ -181,6 +211,16 @@ func Run(c *Case) *vkit.Outcome {
 		if se.Offset != w.off || !se.Timestamp.Equal(w.ts) {
 			o.Failf("", "event %d: offset/timestamp changed by upcasting: %q %v, stored %q %v", idx-1, se.Offset, se.Timestamp, w.off, w.ts)
 		}
+		if c.early() < len(c.Edges) && idx-1 == c.LateAt {
+			// the consumer registers further migrations when it meets this event
+			for i := c.early(); i < len(c.Edges); i++ {
+				e := c.Edges[i]
+				if err := eventbus.RegisterUpcastFunc(bus, name(e.From), name(e.To), rawUpcaster(i, e)); err != nil {
+					o.Failf("", "registering acyclic edge %d %+v from the replay callback failed: %v", i, e, err)
+				}
+			}
+			lateDone = true
+		}
 		return nil
 	})
 	if err != nil {
@@ -188,6 +228,12 @@ func Run(c *Case) *vkit.Outcome {
 	}
 	if idx != len(wants) {
 		o.Failf("", "callback invoked %d times for %d stored events", idx, len(wants))
+	}
+	if lateDone && c.LateAt < len(c.Events)-1 {
+		o.Class("upcasters_registered_from_the_callback_with_events_still_to_come")
+		if c.early() == 0 {
+			o.Class("registry_empty_when_the_replay_started")
+		}
 	}
 	if c.ErrHandler {
 		var wantCalls []ehCall
